@@ -267,7 +267,7 @@ def opcode(draw, max_size=64):
 
 
 @st.composite
-def variant(draw, set_names, sets, regs, env, allow_specific=True, max_ops=3):
+def variant(draw, set_names, sets, regs, env, allow_specific=True, max_ops=3, spec_bias=False):
     v = {'bytecode': draw(opcode())}
     nops = draw(st.integers(0, max_ops))
     if nops == 0:
@@ -275,11 +275,11 @@ def variant(draw, set_names, sets, regs, env, allow_specific=True, max_ops=3):
             v['operands'] = {'count': 0}
         return v
     oc = {'count': nops}
-    use_spec = allow_specific and draw(st.integers(0, 3)) == 0
+    use_spec = allow_specific and draw(st.integers(0, 1 if spec_bias else 3)) == 0
     use_sets = (not use_spec) or draw(st.booleans())
     if use_spec:
         specs = {}
-        for si in range(draw(st.sampled_from([1, 1, 2]))):
+        for si in range(draw(st.sampled_from([1, 2, 2] if spec_bias else [1, 1, 2]))):
             lst = {}
             for i in range(nops):
                 # 'empty' is only documented as the trailing / sole member of a specific list
@@ -311,7 +311,7 @@ def variant(draw, set_names, sets, regs, env, allow_specific=True, max_ops=3):
 
 @st.composite
 def full_isa(draw, max_mnemonics=3, max_variants=3, kinds=ALL_KINDS, address_sizes=(8, 12, 16, 20, 24, 32),
-             with_zones=True):
+             with_zones=True, spec_bias=False):
     asz = draw(st.sampled_from(address_sizes))
     general = {'address_size': asz, 'endian': draw(endians)}
     regs = draw(st.lists(st.sampled_from(REGISTERS), min_size=0, max_size=5, unique=True))
@@ -341,7 +341,7 @@ def full_isa(draw, max_mnemonics=3, max_variants=3, kinds=ALL_KINDS, address_siz
     instrs = {}
     for mn in mns:
         nv = draw(st.integers(1, max_variants))
-        vs = [draw(variant(sorted(sets), sets, regs, env)) for _ in range(nv)]
+        vs = [draw(variant(sorted(sets), sets, regs, env, spec_bias=spec_bias)) for _ in range(nv)]
         if draw(st.booleans()):
             ic = dict(vs[0])
             if len(vs) > 1:
@@ -462,8 +462,7 @@ def operand_for(draw, alt, isa_env, place, simple=False):
     if kind == 'numeric_enumeration':
         d = (alt.get('bytecode') or {}).get('value_dict') or alt['argument']['value_dict']
         v = draw(st.sampled_from(sorted(d)))
-        # (a numeric_enumeration operand that *begins* with a quoted character is not recognised by the tool)
-        return {'k': 'expr', 'e': value_ast(draw, v, consts, allow_chr=False)}
+        return {'k': 'expr', 'e': value_ast(draw, v, consts)}
     if kind == 'enumeration':
         return {'k': 'enum', 'key': draw(st.sampled_from(sorted(alt['argument']['value_dict'])))}
     if kind == 'register':
